@@ -26,7 +26,7 @@ LEVEL_NOTE = (
     "all code points each run. DuplicateBlockKeyBlock.previous_block is compared as a reference (class, key, line) only.")
 TECHNIQUE = ("Lean 4 proof over executable models (core mergeSort lemmas: permutation, sortedness, stability; induction over the "
              "normalisation loop); differential correspondence model vs the three middleware classes through Middleware.transform")
-RULE = ("corpus; exhaustive: every entry with 0..k fields (quick k=4, thorough k=5) over the key pool a/A/b/B/ab (all case-collision "
+RULE = ("every corpus library also with instances of a user-defined subclass of Entry; documents with keys different as written (also equal up to case) parsed with the middleware appended; corpus; exhaustive: every entry with 0..k fields (quick k=4, thorough k=5) over the key pool a/A/b/B/ab (all case-collision "
         "patterns; alphabetical/normalise up to k+2 fields), each field with a distinct value and line, x {alphabetical, normalise, every permutation of every subset of the "
         "order pool a/A/b/c as custom order x case_sensitive in {False, True}} (130 custom configurations, duplicates after folding "
         "included); random entries with 5..8 fields over a wider pool incl. non-ASCII keys (dotted I, sharp s, Kelvin sign, astral "
